@@ -37,7 +37,15 @@ def env(extra: bool):
         from liquid import DictLoader
 
         _envs[extra] = drv.make_env({"extra": extra}, loader=DictLoader({"p": "x", "base": "{% block b %}{% endblock %}"}))
+        # what is registered is read once, when the environment is made: the oracle must not follow the register if parsing or analysing
+        # ever writes to it (the same environment serves every case, so such a write would make later cases blind)
+        _REGISTERED[extra] = frozenset(_envs[extra].tags)
+        _BLOCK_TAGS[extra] = frozenset(t.name for t in _envs[extra].tags.values() if t.block and t.name not in ("comment", "doc", "content", "illegal", "output"))
     return _envs[extra]
+
+
+_REGISTERED: dict[bool, frozenset] = {}
+_BLOCK_TAGS: dict[bool, frozenset] = {}
 
 
 # token -> source text with an expression that parses
@@ -154,14 +162,16 @@ def judge(ctx: core.Ctx, case: dict[str, Any]) -> None:
                 return
     # must-report rules, judged on the token sequence at the template-lexer level
     names = tag_names(e, src)
-    registered = set(e.tags)
+    registered = _REGISTERED[extra]
+    if set(e.tags) != set(registered):
+        ctx.count("tag_register_differs_from_pristine")  # observed, not judged: only its effect on the reports is a violation
     inner = {"else", "elsif", "when", "break", "continue", "plural"}
     for n in set(names):
         if n and n not in registered and n not in inner and not n.startswith("end") and n not in res.unknown_tags:
             ctx.evaluations += 1
             ctx.violation("missed-unknown-tag", f"unknown tag {n!r} in {src!r:.200} is not reported in unknown_tags")
             return
-    block_tags = {t.name for t in e.tags.values() if t.block and t.name not in ("comment", "doc", "content", "illegal", "output")}
+    block_tags = _BLOCK_TAGS[extra]
     for b in block_tags:
         opens = names.count(b)
         closes = names.count("end" + b)
